@@ -1151,6 +1151,115 @@ Proof.
   rewrite W2. rewrite Z.leb_le. lia.
 Qed.
 
+(** * Records whose two fields are arbitrary 64-bit numbers
+
+    Event data is attacker-controlled: the two fields of a 16-byte record may be any numbers
+    below 2^64 - lengths near 2^64 with which "offset + length" wraps around to a small
+    value included.  What the analysis reads is nevertheless always a non-empty range that
+    lies wholly inside the window the image is mapped to, in plain (unbounded) arithmetic. *)
+
+(** a chunk made over the image: a physical address range, not empty, inside the window
+    [4 GiB - image size, 4 GiB) - no sum taken modulo 2^64 *)
+Definition chunk_inside (isz : Z) (c : chunk) : Prop :=
+  match c with
+  | ChRaw => True
+  | ChImage phys off len =>
+      phys = true /\ PHYS_ADDR_BASE - isz <= off /\ 0 < len <= isz /\ off + len <= PHYS_ADDR_BASE
+  end.
+
+Lemma valid_pair_bounds : forall isz len off,
+  0 < isz <= PHYS_ADDR_BASE -> valid_pair isz len off = true ->
+  len <= isz /\ PHYS_ADDR_BASE - isz <= off < PHYS_ADDR_BASE /\ is_phys_addr off isz = true.
+Proof.
+  intros isz len off Hi V. unfold valid_pair in V. apply andb_prop in V. destruct V as [V1 V2].
+  split; [apply Z.leb_le; exact V1|]. split; [|exact V2].
+  unfold is_phys_addr in V2. apply andb_prop in V2. destruct V2 as [H1 H2].
+  apply Z.leb_le in H1. apply Z.ltb_lt in H2.
+  rewrite wrap64_small in H1; [lia|]. unfold PHYS_ADDR_BASE, W64 in *. lia.
+Qed.
+
+(** the fit test alone, for ANY length (not only one the parser lets through - 2^64 - 1
+    included): a kept range at a physical address is no longer than the image and ends at
+    or below 4 GiB; in particular [image offset + length] did not wrap *)
+Lemma range_fits_inside : forall isz off len,
+  0 < isz <= PHYS_ADDR_BASE -> is_phys_addr off isz = true ->
+  range_fits isz true off len = true -> len <= isz /\ off + len <= PHYS_ADDR_BASE.
+Proof.
+  intros isz off len Hi Hp F.
+  pose proof (range_fits_readable _ _ _ _ F) as R.
+  assert (R' : range_readable isz (off, len)).
+  { unfold range_readable. cbn [fst snd]. rewrite Hp. exact R. }
+  apply (range_readable_iff isz off len Hi Hp) in R'.
+  unfold is_phys_addr in Hp. apply andb_prop in Hp. destruct Hp as [H1 H2].
+  apply Z.leb_le in H1. apply Z.ltb_lt in H2.
+  rewrite wrap64_small in H1; [|unfold PHYS_ADDR_BASE, W64 in *; lia].
+  split; lia.
+Qed.
+
+Lemma ranges_to_chunks_inside : forall isz m,
+  0 < isz <= PHYS_ADDR_BASE ->
+  forall ranges chunks,
+  Forall (fun '(off, len) => 0 < len -> is_phys_addr off isz = true) ranges ->
+  Forall (chunk_inside isz) chunks ->
+  Forall (chunk_inside isz) (ranges_to_chunks isz m ranges chunks).
+Proof.
+  intros isz m Hi. induction ranges as [|[off len] t IH]; intros chunks Hr Hc; cbn [ranges_to_chunks]; [exact Hc|].
+  inversion Hr as [|x l P Ht]; subst.
+  destruct (0 <? len) eqn:E0.
+  - apply Z.ltb_lt in E0. specialize (P E0). rewrite P.
+    destruct (range_fits isz true off len) eqn:Ff.
+    + apply IH; [exact Ht|]. apply Forall_app. split; [exact Hc|]. constructor; [|constructor].
+      destruct (range_fits_inside isz off len Hi P Ff) as [B1 B2].
+      unfold is_phys_addr in P. apply andb_prop in P. destruct P as [H1 H2].
+      apply Z.leb_le in H1. rewrite wrap64_small in H1; [|unfold PHYS_ADDR_BASE, W64 in *; lia].
+      cbn [chunk_inside]. repeat split; lia.
+    + apply IH; assumption.
+  - match goal with |- context [if ?r then _ else _] => destruct r end.
+    + apply IH; [exact Ht|]. apply Forall_app. split; [exact Hc|]. constructor; [exact I|constructor].
+    + apply IH; assumption.
+Qed.
+
+(** every chunk the analysis of an entry makes - for every event data whatsoever, every
+    measurement or none - lies inside the window (parser and fit test together) *)
+Theorem explain_chunks_inside : forall e isz m p,
+  0 < isz <= PHYS_ADDR_BASE ->
+  parse_event_data e isz = Ok p ->
+  Forall (chunk_inside isz) (ranges_to_chunks isz m (pr_ranges p) []).
+Proof.
+  intros e isz m p Hi E. apply ranges_to_chunks_inside; [exact Hi| |constructor].
+  pose proof (parse_event_data_ranges_valid e isz p E) as V.
+  eapply Forall_impl; [|exact V]. intros [off len] Vp _.
+  destruct (valid_pair_bounds isz len off Hi Vp) as [_ [_ B3]]. exact B3.
+Qed.
+
+(** ... and the fit test does not lean on the parser: fed with ANY list of (offset, length)
+    numbers - what a parser that checked nothing would hand over - every image chunk over
+    a physical address still lies inside the window *)
+Theorem ranges_to_chunks_inside_any : forall isz m ranges,
+  0 < isz <= PHYS_ADDR_BASE ->
+  Forall (fun c => match c with ChImage true _ _ => chunk_inside isz c | _ => True end)
+         (ranges_to_chunks isz m ranges []).
+Proof.
+  intros isz m ranges Hi.
+  assert (G : forall chunks,
+    Forall (fun c => match c with ChImage true _ _ => chunk_inside isz c | _ => True end) chunks ->
+    Forall (fun c => match c with ChImage true _ _ => chunk_inside isz c | _ => True end)
+           (ranges_to_chunks isz m ranges chunks)).
+  { induction ranges as [|[off len] t IH]; intros chunks Hc; cbn [ranges_to_chunks]; [exact Hc|].
+    destruct (0 <? len) eqn:E0.
+    - destruct (range_fits isz (is_phys_addr off isz) off len) eqn:Ff; [|apply IH; exact Hc].
+      apply IH. apply Forall_app. split; [exact Hc|]. constructor; [|constructor].
+      destruct (is_phys_addr off isz) eqn:P; [|exact I].
+      apply Z.ltb_lt in E0.
+      destruct (range_fits_inside isz off len Hi P Ff) as [B1 B2].
+      unfold is_phys_addr in P. apply andb_prop in P. destruct P as [H1 H2].
+      apply Z.leb_le in H1. rewrite wrap64_small in H1; [|unfold PHYS_ADDR_BASE, W64 in *; lia].
+      cbn [chunk_inside]. repeat split; lia.
+    - match goal with |- context [if ?r then _ else _] => destruct r end; apply IH; [|exact Hc].
+      apply Forall_app. split; [exact Hc|]. constructor; [exact I|constructor]. }
+  apply G. constructor.
+Qed.
+
 (** * CombineAsEventLog *)
 
 Definition csims (l : list centry) : list sim_ev :=
@@ -1332,3 +1441,54 @@ Lemma witness_two_repairs :
 Proof.
   eexists. eexists. eexists. vm_compute. repeat split; try reflexivity. discriminate.
 Qed.
+
+(** Records with a 64-bit length (the class of inputs with which "offset + length" wraps
+    around): [0xFFFF1000] (inside the window of the 64 KiB image, image offset 0x1000) next
+    to the number [2^64 - 0x1000 + 0x10] - image offset + length = 2^64 + 0x10, which is
+    0x10 modulo 2^64 - stored offset first and length first, and the same address next to
+    [2^64 - 1].  None is a (length, offset) pair of the format: no range is parsed, the
+    entry is reported (paired: mismatch; inserted: unexpected).  And even a parser that let
+    the record through would not get it past the fit test, although the wrapped sum "fits". *)
+Definition w_wide_off : Z := 4294905856.                 (* 0xFFFF1000 *)
+Definition w_wide_len : Z := 18446744073709547536.       (* 2^64 - 0x1000 + 0x10 *)
+Definition w_wide_off_first : list Z := [0;16;255;255;0;0;0;0; 16;240;255;255;255;255;255;255].
+Definition w_wide_len_first : list Z := [16;240;255;255;255;255;255;255; 0;16;255;255;0;0;0;0].
+Definition w_wide_max : list Z := [0;16;255;255;0;0;0;0; 255;255;255;255;255;255;255;255].
+Definition w_log_wide (d : list Z) : list event := [mkEv 0 EV_POST_CODE d (Some (mkDg 4 (w_dg 2)))].
+Definition w_log_wide_ins (d : list Z) : list event :=
+  [mkEv 0 EV_EFI_PLATFORM_FIRMWARE_BLOB2 d (Some (mkDg 4 (w_dg 2))); mkEv 0 EV_POST_CODE [] (Some (mkDg 4 (w_dg 1)))].
+
+Lemma witness_wide_fields :
+  le64 (firstn 8 w_wide_off_first) = w_wide_off /\ le64 (skipn 8 w_wide_off_first) = w_wide_len /\
+  le64 (skipn 8 w_wide_max) = 2 ^ 64 - 1 /\
+  is_phys_addr w_wide_off w_isz = true /\
+  wrap64 (image_offset w_isz true w_wide_off + w_wide_len) = 16.
+Proof. vm_compute. repeat split; reflexivity. Qed.
+
+Lemma witness_wide_paired :
+  forall d, In d [w_wide_off_first; w_wide_len_first; w_wide_max] ->
+  exists rs, reproduce w_hp 4 w_isz false w_cmds w_evlog (Some (w_log_wide d)) 4 w_st ([false], [false])
+             = Ok (rs, [IMismatch 0], None) /\ map re_status rs = [StMismatch].
+Proof.
+  intros d [H|[H|[H|[]]]]; subst d; eexists; vm_compute; split; reflexivity.
+Qed.
+
+Lemma witness_wide_unexpected :
+  forall d, In d [w_wide_off_first; w_wide_len_first; w_wide_max] ->
+  exists rs, reproduce w_hp 4 w_isz false w_cmds w_evlog (Some (w_log_wide_ins d)) 4 w_st ([true; false], [false])
+             = Ok (rs, [IUnexpected 0], None) /\ map re_status rs = [StUnexpected; StMatch].
+Proof.
+  intros d [H|[H|[H|[]]]]; subst d; eexists; vm_compute; split; reflexivity.
+Qed.
+
+Lemma witness_wide_not_a_pair :
+  forall d p, In d [w_wide_off_first; w_wide_len_first; w_wide_max] ->
+  parse_event_data (mkEv 0 EV_POST_CODE d (Some (mkDg 4 (w_dg 2)))) w_isz = Ok p -> pr_ranges p = [].
+Proof.
+  intros d p [H|[H|[H|[]]]] E; subst d; vm_compute in E; inversion E; reflexivity.
+Qed.
+
+Lemma witness_wide_dropped_by_fit_test :
+  ranges_to_chunks w_isz (Some w_meas) [(w_wide_off, w_wide_len); (w_wide_off, 2 ^ 64 - 1)] [] = [] /\
+  ranges_to_chunks w_isz None [(w_wide_off, w_wide_len); (w_wide_off, 2 ^ 64 - 1)] [] = [].
+Proof. vm_compute. split; reflexivity. Qed.
